@@ -551,13 +551,27 @@ func (c *cx) tagSelf() {
 
 var selfCfg = &config.ClusterInfo{Name: "c"}
 
-// the address this node knows as its own (Cluster.InitSelf, done by App.StartNode in production)
-func setSelf(a int64) {
-	addr := ""
+// what this node knows about itself (Cluster.InitSelf, done by App.StartNode in production):
+// its address, its cluster node id, the services it hosts
+func setSelf(a, id int64, svcs []any) {
+	addr, nid := "", "c@self"
 	if a >= 0 {
 		addr = fmt.Sprintf("h:%d", a)
 	}
-	app.Node.GetCluster().InitSelf(addr, selfCfg, "c@self", nil, nil)
+	if id >= 0 {
+		nid = fmt.Sprintf("c@n%d", id)
+	}
+	var names []string
+	cfg := map[string]*config.ServiceInfo{}
+	for _, s := range svcs {
+		segs := hx.Ints(s)
+		if len(segs) != 2 {
+			continue
+		}
+		names = append(names, tokStr(segs[1]))
+		cfg[tokStr(segs[1])] = &config.ServiceInfo{Type: tokStr(segs[0])}
+	}
+	app.Node.GetCluster().InitSelf(addr, selfCfg, nid, names, cfg)
 }
 
 func (d *driver) execAll(ops []hx.T, st *stats, run *caseRun) {
@@ -566,7 +580,7 @@ func (d *driver) execAll(ops []hx.T, st *stats, run *caseRun) {
 	route.TheRouteService = route.NewRouteService()
 	route.SetDefaultRoute(d.appDefault)
 	app.Node.GetCluster().UpdateClusterTopology(nil)
-	setSelf(-1)
+	setSelf(-1, -1, nil)
 	for len(d.recv) > 0 {
 		<-d.recv
 	}
@@ -621,6 +635,7 @@ func (c *cx) execOne(o hx.T) any {
 	if o.Name == "OCalls" {
 		return c.calls(o)
 	}
+	c.d.mainT.invoked = 0
 	return c.execOn(c.d.ns, c.d.mainT, o)
 }
 
@@ -663,7 +678,7 @@ func (c *cx) execOn(ns *service.NodeService, t *tctx, o hx.T) (res any) {
 		st.tags["set-default-"+m.Name] = true
 		return "BUnit"
 	case "OSelf":
-		setSelf(o.Int(0))
+		setSelf(o.Int(0), o.Int(1), o.List(2))
 		st.tags["self-address-set"] = true
 		c.self = o.Int(0)
 		c.tagSelf()
